@@ -244,6 +244,32 @@ def do_check(ctx, args, t0):
         lines.append('VIOLATION property=%s replay=%s obligation="%s" job=%s%s' % (
             prop, path, failed_here[0].desc[:120], res.job.name, tail))
         rc = 1
+    # thorough tier: the real-code drivers of the units are run on the tree under check as a sanity layer (a test, NOT the deciding technique): a driver that fails although every
+    # obligation was discharged means the contracts do not cover what the driver observes, or the driver is wrong: undecided (exit 2), never a violation
+    drivers_run = []
+    if ctx.tier == 'thorough' and rc == 0 and not args.jobs:
+        from vf import replay as rp
+        seen_d = set()
+        for u in units:
+            for drv, dargs, flavour in getattr(u, 'DRIVERS', []):
+                key = (drv, tuple(map(str, dargs)), flavour)
+                if key in seen_d:
+                    continue
+                seen_d.add(key)
+                try:
+                    if flavour == 'coro':
+                        bad, log = rp.run_coro_driver(ctx, drv, dargs, timeout=240)
+                    elif flavour == 'fiber':
+                        bad, log = rp.run_fiber_driver(ctx, drv, dargs, timeout=240)
+                    elif flavour == 'fiber_debug':
+                        bad, log = rp.run_fiber_driver(ctx, drv, dargs, timeout=240, glibcxx_debug=True)
+                    else:
+                        bad, log = rp.run_driver(ctx, drv, dargs, sanitize=(flavour == 'asan'), timeout=240)
+                except Exception as e:      # a driver problem must not hide the proof result
+                    bad, log = None, 'driver could not be run: %r' % (e,)
+                drivers_run.append({'driver': drv, 'args': [str(a) for a in dargs], 'flavour': flavour, 'passed': (bad is False), 'could_run': bad is not None})
+                if bad:
+                    undecided.append('real-code driver %s %s (%s build) FAILS on this tree although every obligation was discharged: %s' % (drv, ' '.join(map(str, dargs)), flavour, log[-300:].replace('\n', ' | ')))
     if rc == 0 and undecided:
         rc = 2
     wall = time.time() - t0
@@ -276,6 +302,7 @@ def do_check(ctx, args, t0):
             'samples': samples[:12],
             'known_findings_seen': [{'id': k['id'], 'what': k['what'], 'obligation': ob.label()} for k, ob in known_seen],
             'undecided': undecided,
+            'real_code_drivers': drivers_run,
             'exhaustive': False,
         },
         'assumptions': assumptions + ['sequentially consistent atomics in all rely/guarantee proofs',
